@@ -145,3 +145,31 @@ def canon_text(prog: Prog, fn: Fn, text: str) -> str:
         return canon(prog, fn, ast.parse(text, mode="eval").body)
     except SyntaxError:
         return text
+
+
+def expr_origin(prog: Prog, fn: Fn, e: ast.AST) -> str:
+    """The origin token a local bound to `e` would get (`x = e`): conditional expressions and `or` chains are alternative sources."""
+    alts = [e]
+    flat = []
+    while alts:
+        v = alts.pop()
+        if isinstance(v, ast.NamedExpr):
+            alts.append(v.value)
+        elif isinstance(v, ast.IfExp):
+            alts += [v.body, v.orelse]
+        elif isinstance(v, ast.BoolOp) and isinstance(v.op, ast.Or):
+            alts += list(v.values)
+        else:
+            flat.append(v)
+    toks: set[str] = set()
+    for v in flat:
+        tk = _src(prog, fn, v, 1)
+        if tk.startswith("<") and tk.endswith(">") and tk.count("<") == 1:
+            toks.update(tk[1:-1].split("|"))
+        else:
+            toks.add(tk)
+    if len(toks) == 1:
+        (only,) = toks
+        if only.startswith("<") and only.endswith(">"):
+            return only
+    return "<" + "|".join(sorted(toks)) + ">"
